@@ -138,6 +138,17 @@ pub fn run(tier: Tier) -> Run {
             }
         }
     }
+    // every ordered pair of ids (a, b) below 200 as the ids of a 32-bit and a 64-bit type declared one after the other, then
+    // a constant of the second: which declaration an id resolves to must not depend on the numbers chosen as ids
+    for a in 1..=200u32 {
+        for b in 1..=200u32 {
+            if a == b {
+                continue;
+            }
+            let p = vec![Inst::new("TypeInt", None, Some(a), vec![Arg::Lit32(32), Arg::Lit32(0)]), Inst::new("TypeInt", None, Some(b), vec![Arg::Lit32(64), Arg::Lit32(0)])];
+            work.push((p, Shape { id: format!("Constant:u64:type-ids-{}-{}", a, b), inst: Inst::new("Constant", Some(b), Some(201), vec![Arg::Lit64(0x8000_0000_0000_0001)]) }));
+        }
+    }
     // OpExtInst behind imports of named sets: its trailing operands are ids whatever the set
     work.extend(crate::checks::c03::ext_inst_variants());
     let ctx = type_context();
@@ -220,6 +231,43 @@ pub fn run(tier: Tier) -> Run {
             })
             .collect();
         res.extend(extra);
+    }
+    // the minimal and the fullest shape of every opcode parsed from a byte slice that starts 1, 2 and 3 bytes off a word
+    // boundary (parse_bytes takes any &[u8])
+    {
+        let mis: Vec<Vec<Viol>> = g
+            .insts
+            .par_iter()
+            .map(|gi| {
+                let mut out = vec![];
+                for inst in [universe::minimal(gi), universe::fullest(gi)] {
+                    let mut words = crate::model::header(0x0001_0300, 0, 1000);
+                    words.extend(enc(&inst));
+                    let bytes = crate::model::words_to_bytes(&words);
+                    let aligned = crate::report::guarded(|| crate::util::parse_collect(&bytes));
+                    for off in 1..4usize {
+                        let mut store = vec![0u8; bytes.len() + 8];
+                        let base = store.as_ptr() as usize;
+                        let start = (4 - base % 4) % 4 + off;
+                        store[start..start + bytes.len()].copy_from_slice(&bytes);
+                        let got = crate::report::guarded(|| crate::util::parse_collect(&store[start..start + bytes.len()]));
+                        let same = match (&aligned, &got) {
+                            (Ok((ra, ca)), Ok((rb, cb))) => ra.is_ok() == rb.is_ok() && ca.insts.len() == cb.insts.len() && ca.insts.iter().zip(cb.insts.iter()).all(|(x, y)| crate::model::from_dr(x) == crate::model::from_dr(y)),
+                            (Err(_), Err(_)) => true,
+                            _ => false,
+                        };
+                        if !same && out.is_empty() {
+                            out.push(viol(format!("C02:parse:{}:misaligned", gi.name), format!("{} parsed from a slice {} byte(s) off a word boundary differs from the aligned parse", inst.short(), off), json!({"kind": "c02-misaligned", "opcode": gi.name, "offset": off})));
+                        }
+                    }
+                }
+                out
+            })
+            .collect();
+        for v in mis {
+            run.add_all(v);
+        }
+        run.outcome("misaligned_parses", g.insts.len() as u64 * 6);
     }
     let mut oc: BTreeMap<String, u64> = BTreeMap::new();
     for (v, o) in res {
